@@ -349,6 +349,28 @@ func c06JSON(c *core.Ctx, doc string) {
 			c06Guard(c, "zhttp "+m+" "+ct, cp(), func() { run.Parse(b, zhttp.Request(r), nil).MustNotPanic() })
 		}
 	}
+	if doc == "" {
+		// a request that has no body at all (http.NewRequest(method, url, nil) leaves Body nil; servers see http.NoBody), every content type
+		for _, m := range []string{"POST", "PUT", "PATCH", "DELETE", "GET"} {
+			for _, ct := range []string{"application/json", "application/x-www-form-urlencoded", "multipart/form-data; boundary=x", "text/plain", ""} {
+				for _, body := range []io.Reader{nil, http.NoBody} {
+					r, _ := http.NewRequest(m, "/x?name=q", body)
+					if ct != "" {
+						r.Header.Set("Content-Type", ct)
+					}
+					dd := cp()
+					dd["request_body"] = fmt.Sprintf("%T", body)
+					c06Guard(c, "zhttp "+m+" "+ct+" without a body", dd, func() { run.Parse(b, zhttp.Request(r), nil).MustNotPanic() })
+					r2, _ := http.NewRequest(m, "/x", body)
+					if ct != "" {
+						r2.Header.Set("Content-Type", ct)
+					}
+					c06Guard(c, "zhttp "+m+" "+ct+" without a body -> Ptr(Struct)", dd, func() { run.Parse(pb, zhttp.Request(r2), nil).MustNotPanic() })
+				}
+			}
+		}
+		c06Guard(c, "zjson.Decode(nil reader)", cp(), func() { run.Parse(b, zjson.Decode(nil), nil).MustNotPanic() })
+	}
 	// faulty readers
 	for _, fr := range []*faultyReader{{data: []byte(doc), fail: -1, chunk: 1}, {data: []byte(doc), fail: len(doc) / 2, chunk: 7}, {data: []byte(doc), fail: 0, chunk: 1}, {data: []byte(doc), fail: len(doc) - 1, chunk: 4096}} {
 		fr := fr
